@@ -671,6 +671,18 @@ mod verif_driver_compile {
                 }
             }
         }
+        // a field whose value is absent is refused (or encoded in its place): the record never silently loses a field
+        for (pos, fields) in [(0usize, vec![tir::Expression::None, num(1), num(2)]), (1, vec![num(1), tir::Expression::None, num(2)]), (2, vec![num(1), num(2), tir::Expression::None])] {
+            n += 1;
+            let s = tir::Expression::Struct(tir::StructExpr { constructor: 0, fields: fields.clone() });
+            for (path, r) in [("compile_data_expr", quiet(|| compile_data_expr(&s))), ("try_as_data", quiet(|| s.try_as_data()))] {
+                if let Ok(Ok(primitives::PlutusData::Constr(c))) = &r {
+                    if c.fields.len() != 3 {
+                        witness("c09_cardano/compile_struct#postcondition", "compile_struct", format!("record of 3 fields whose field {pos} is absent, via {path} class=absent-field-dropped"), format!("a constructor with {} fields", c.fields.len()), "an error, or three fields in their places");
+                    }
+                }
+            }
+        }
         for text in ["", "a", "hello", "0x", "0xcafe", "0xCAFE", "0xzz", "cafe", "0x0", "\u{e9}t\u{e9}", "0x\u{e9}"] {
             n += 1;
             let e = tir::Expression::String(text.to_string());
@@ -792,6 +804,34 @@ mod verif_driver_compile {
                 Err(p) => witness("c14_cardano/entry_point#reachable-panic", "entry_point", desc, format!("panic:{p}"), "Ok or Err"),
             }
         }
+        // redeemers and the script-data hash are present exactly when some block carries a redeemer - whatever script witnesses
+        // the template attaches (a witness without any redeemer must not leave an EMPTY redeemer map behind)
+        let full = PParams { network: Network::Testnet, min_fee_coefficient: 44, min_fee_constant: 155381, coins_per_utxo_byte: 4310,
+            cost_models: HashMap::from([(0u8, vec![0i64; 166]), (1u8, vec![0i64; 175]), (2u8, vec![0i64; 251])]) };
+        for version in [None, Some(1i128), Some(2), Some(3)] {
+            for native in [false, true] {
+                for redeemer in [false, true] {
+                    n += 1;
+                    let mut tx = empty_tx();
+                    tx.inputs = vec![tir::Input { redeemer: if redeemer { num(1) } else { tir::Expression::None }, ..input() }];
+                    tx.outputs = vec![tir::Output { address: addr(), datum: tir::Expression::None, amount: tir::Expression::Assets(vec![ada(2_000_000)]), optional: false }];
+                    if let Some(v) = version { tx.adhoc.push(adhoc("plutus_witness", vec![("version", num(v)), ("script", tir::Expression::Bytes(vec![0x51, 1, 1, 0, 9]))])); }
+                    if native { tx.adhoc.push(adhoc("native_witness", vec![("script", tir::Expression::Bytes([vec![0x82, 0x00, 0x58, 0x1c], vec![9u8; 28]].concat()))])); }
+                    let desc = format!("plutus witness version {version:?}, native witness {native}, a spend redeemer {redeemer}");
+                    match quiet(|| entry_point(&tx, &full)) {
+                        Ok(Ok(t)) => {
+                            let entries = t.transaction_witness_set.redeemer.as_deref().map(|r| match r { primitives::Redeemers::Map(m) => m.len(), primitives::Redeemers::List(l) => l.len() });
+                            let has_hash = t.transaction_body.script_data_hash.is_some();
+                            if entries.is_some() != redeemer || entries == Some(0) || has_hash != redeemer {
+                                witness("c10_cardano/entry_point#presence", "entry_point", format!("{desc} class=redeemers-and-script-data-hash"), format!("redeemers: {entries:?} entries, script data hash present={has_hash}"), "redeemers (non-empty) and the script-data hash present exactly when a block carries a redeemer");
+                            }
+                        }
+                        Ok(Err(_)) => {}
+                        Err(p) => witness("c14_cardano/entry_point#reachable-panic", "entry_point", desc, format!("panic:{p}"), "Ok or Err"),
+                    }
+                }
+            }
+        }
         // an output whose whole amount is one token of quantity zero (or below): a coin value, or an error - never an empty multiasset
         for q in [0i128, -1, 1] {
             for with_ada in [false, true] {
@@ -898,7 +938,7 @@ mod verif_driver_compile {
     // burn amount, both validity slots, every withdrawal amount, the donation - arrives in the body a standard decoder reads
     // back, exactly, with an entry for every item written (nothing dropped, whatever the amount).  A value the field cannot
     // hold can only give Err (any Ok is compared exactly).
-    // BOUND: one template, 10 quantity positions x 13 boundary values (one position varied at a time).
+    // BOUND: one template, 12 quantity positions (incl. the output of a publish directive) x 13 boundary values (one position varied at a time).
     #[test]
     fn body_quantities_arrive_exactly() {
         let mut n = 0;
@@ -911,12 +951,12 @@ mod verif_driver_compile {
             network: Network::Testnet, min_fee_coefficient: 44, min_fee_constant: 155381, coins_per_utxo_byte: 4310,
             cost_models: HashMap::from([(0u8, vec![0i64; 166]), (1u8, vec![0i64; 175]), (2u8, vec![0i64; 251])]),
         };
-        const NAMES: [&str; 10] = ["fee", "output lovelace", "output token amount", "mint amount", "burn amount", "validity since", "validity until", "first withdrawal", "second withdrawal", "donation"];
-        let base: [i128; 10] = [321_000, 3_000_000, 4, 4, 1, 100, 200, 5, 6, 7];
+        const NAMES: [&str; 12] = ["fee", "output lovelace", "output token amount", "mint amount", "burn amount", "validity since", "validity until", "first withdrawal", "second withdrawal", "donation", "published output lovelace", "published output token amount"];
+        let base: [i128; 12] = [321_000, 3_000_000, 4, 4, 1, 100, 200, 5, 6, 7, 9_000_000, 3];
         // largest value each position can hold (and whether zero is a value the position can hold)
-        let max: [i128; 10] = [p(64) - 1, p(64) - 1, p(64) - 1, p(63) - 1, p(63), p(64) - 1, p(64) - 1, p(64) - 1, p(64) - 1, p(64) - 1];
-        let zero_ok: [bool; 10] = [true, true, false, false, false, true, true, true, true, false];
-        for pos in 0..10 {
+        let max: [i128; 12] = [p(64) - 1, p(64) - 1, p(64) - 1, p(63) - 1, p(63), p(64) - 1, p(64) - 1, p(64) - 1, p(64) - 1, p(64) - 1, p(64) - 1, p(64) - 1];
+        let zero_ok: [bool; 12] = [true, true, false, false, false, true, true, true, true, false, true, false];
+        for pos in 0..12 {
             for v in &set {
                 n += 1;
                 let mut q = base;
@@ -935,8 +975,9 @@ mod verif_driver_compile {
                     adhoc("withdrawal", vec![("credential", reward(8)), ("amount", num(q[7])), ("redeemer", tir::Expression::None)]),
                     adhoc("withdrawal", vec![("credential", reward(4)), ("amount", num(q[8])), ("redeemer", tir::Expression::None)]),
                     adhoc("treasury_donation", vec![("coin", num(q[9]))]),
+                    adhoc("cardano_publish", vec![("to", addr(6)), ("amount", tir::Expression::Assets(vec![ada(q[10]), tok(5, "P", q[11])])), ("version", num(3)), ("script", tir::Expression::Bytes(vec![0x51, 1, 1, 0, 2]))]),
                 ];
-                let input = format!("{}={v} (the other quantities: fee 321000, output 3000000 lovelace + 4 tokens, mint 4, burn 1, validity 100..200, withdrawals 5 and 6, donation 7)", NAMES[pos]);
+                let input = format!("{}={v} (the other quantities: fee 321000, output 3000000 lovelace + 4 tokens, mint 4, burn 1, validity 100..200, withdrawals 5 and 6, donation 7, published output 9000000 lovelace + 3 tokens)", NAMES[pos]);
                 let holds = *v <= max[pos] && (*v != 0 || zero_ok[pos]);
                 let bytes = match quiet(|| entry_point(&tx, &pparams).map(|t| pallas::codec::minicbor::to_vec(&t).unwrap())) {
                     Err(pn) => { witness("c02_cardano/entry_point#reachable-panic", "entry_point", input, format!("panic:{pn}"), "Ok or Err"); continue; }
@@ -963,6 +1004,16 @@ mod verif_driver_compile {
                 // an amount of zero is no tokens at all: the entry may be left out (its value is still exact)
                 want.push(format!("output={} lovelace + tokens {:?}", q[1], if q[2] == 0 { vec![] } else { vec![(2u8, q[2])] }));
                 got.push(format!("output={} lovelace + tokens {:?}", coin, toks));
+                // the output a publish directive adds comes last
+                let (pcoin, ptoks): (i128, Vec<(u8, i128)>) = match b.outputs.last() {
+                    Some(primitives::TransactionOutput::PostAlonzo(o)) if b.outputs.len() == 3 => match &o.value {
+                        primitives::Value::Coin(c) => (*c as i128, vec![]),
+                        primitives::Value::Multiasset(c, ma) => (*c as i128, ma.iter().flat_map(|(pol, m)| m.iter().map(move |(_, a)| (pol[0], u64::from(*a) as i128))).collect()),
+                    },
+                    _ => (-1, vec![]),
+                };
+                want.push(format!("published output={} lovelace + tokens {:?}", q[10], if q[11] == 0 { vec![] } else { vec![(5u8, q[11])] }));
+                got.push(format!("published output={} lovelace + tokens {:?}", pcoin, ptoks));
                 let mut mint: Vec<(u8, i128)> = b.mint.iter().flat_map(|ma| ma.iter()).flat_map(|(pol, m)| m.iter().map(move |(_, a)| (pol[0], i64::from(*a) as i128))).collect();
                 mint.sort();
                 want.push(format!("mint={:?}", vec![(1u8, -q[4]), (2u8, q[3])]));
